@@ -21,10 +21,10 @@ def head_fields(head):
 def file_image_check(ctx, stats, lmq, exe, sess, m, typ, extra, iv, binf, base, problems):
     """the WHOLE binary file against the extracted file model (coq/C04/FileImage.v: header, vocabulary with the modelled
     MurmurHash64A, search structure of coq/C03/TrieImage.v / ProbingImage.v, vocabulary strings) -- byte for byte.  Only the
-    unquantised trie / array trie / probing types with a valid (non-mangled) vocabulary are laid out."""
-    if typ not in ("trie", "atrie", "probing") or len(m.grams) > 700 or getattr(m, "raw_arpa", None) is not None:
+    unquantised trie / array trie / probing / rest-probing types with a valid (non-mangled) vocabulary are laid out."""
+    if typ not in ("trie", "atrie", "probing", "rest") or len(m.grams) > 700 or getattr(m, "raw_arpa", None) is not None:
         return
-    kd = {"trie": "T", "atrie": "A", "probing": "P"}[typ]
+    kd = {"trie": "T", "atrie": "A", "probing": "P", "rest": "R"}[typ]
     par = 0
     for o in extra:
         if o.startswith("bhiksha="):
@@ -33,7 +33,7 @@ def file_image_check(ctx, stats, lmq, exe, sess, m, typ, extra, iv, binf, base, 
             par = o.split("=")[1]
     if kd == "A" and not any(o.startswith("bhiksha=") for o in extra):
         par = 22                     # Config's default pointer_bhiksha_bits (lm/config.cc)
-    if kd == "P" and not any(o.startswith("mult=") for o in extra):
+    if kd in ("P", "R") and not any(o.startswith("mult=") for o in extra):
         par = "1.5"
     cmd = [lmq, binf, typ, sess.vocab]
     rc, out, err = vlib.sh(cmd, input=b"IDS\n", timeout=120)
@@ -44,7 +44,7 @@ def file_image_check(ctx, stats, lmq, exe, sess, m, typ, extra, iv, binf, base, 
     ids = [int(x, 16) for x in res[1].split()]
     if len(ids) < len(m.vocab) or len(set(ids[1:])) != len(ids) - 1:
         return                       # two spellings with one id (<unk> variants): not a vocabulary the file model describes
-    ls = lc.mapped_session_lines(m, ids, mult=float(par) if kd == "P" else 1.5)
+    ls = lc.mapped_session_lines(m, ids, mult=float(par) if kd in ("P", "R") else 1.5)
     ls.append(lc.file_image_line(m, kd, par, iv))
     mo = vlib.run_lines(exe, ls)
     img = mo[-1]
@@ -61,7 +61,7 @@ def file_image_check(ctx, stats, lmq, exe, sess, m, typ, extra, iv, binf, base, 
             % (typ, first, len(fb), fb[first:first + 16].hex(), len(mb), mb[first:first + 16].hex()))
     # behavioural difference?  every n-gram of the model on the written file against the model's own answers
     qs = lc.ngram_queries(m)
-    mk = "P" if kd == "P" else "T"
+    mk = kd if kd in ("P", "R") else "T"
     ls2 = ls[:-1] + ["S %s %d %s" % (mk, b, " ".join("%x" % ids[w] for w in ws)) for b, ws in qs]
     mo2 = vlib.run_lines(exe, ls2)[len(ls) - 1:]
     r2 = sess.run_impl(lmq, typ, qs, model_file=binf)
